@@ -269,7 +269,7 @@ fn pipeline(reqs: Vec<Vec<u8>>, stall_ms: u64, server: &Arc<Server<Cat>>, addr: 
     out.emit(json!({"ev": "Tcp", "provider": provider, "reset": false, "client_saw_reset": reset || !wrote, "reqs": [], "nreqs": reqs.len(), "direct": expected, "segs": [], "got": got, "closed": closed}));
 }
 
-/// Request, wait 2.7 s, request (in two halves 0.3 s apart), wait 2.7 s, request: every message arrives long before its own 5 s deadline.
+/// Request; 1.0 s; request in two halves 3.0 s apart; 3.0 s; request: every message arrives before its own 5 s deadline.
 fn slow_connection(server: &Arc<Server<Cat>>, addr: SocketAddr, provider: &str) -> Value {
     let mk = |id: u8| { let mut m = vec![0, id, 0, 0, 0, 1, 0, 0, 0, 0, 0, 0]; m.extend_from_slice(&w("www.example.test.")); m.extend_from_slice(&[0, 1, 0, 1]); m };
     let reqs: Vec<Vec<u8>> = (1..=3).map(mk).collect();
@@ -281,14 +281,16 @@ fn slow_connection(server: &Arc<Server<Cat>>, addr: SocketAddr, provider: &str) 
     let mut closed = false;
     let mut buf = vec![0u8; 4096];
     for (i, q) in reqs.iter().enumerate() {
-        if i > 0 { std::thread::sleep(Duration::from_millis(2700)); }
-        // the second request is sent in two halves 0.3 s apart
+        // request 2 begins 1.0 s after response 1 and arrives in two halves 3.0 s apart (4.0 s of its own 5 s); request 3
+        // follows an idle 3.0 s later: within its own 5 s, but longer than what request 2 left of its allowance
+        if i == 1 { std::thread::sleep(Duration::from_millis(1000)); }
+        if i == 2 { std::thread::sleep(Duration::from_millis(3000)); }
         let mut framed = (q.len() as u16).to_be_bytes().to_vec();
         framed.extend_from_slice(q);
         let half = if i == 1 { framed.len() / 2 } else { framed.len() };
         if sock.write_all(&framed[..half]).is_err() { closed = true; break; }
         if half < framed.len() {
-            std::thread::sleep(Duration::from_millis(300));
+            std::thread::sleep(Duration::from_millis(3000));
             if sock.write_all(&framed[half..]).is_err() { closed = true; break; }
         }
         let want = got.len() + expected[i].len() + 2;
